@@ -42,3 +42,24 @@ func TestEval(t *testing.T) {
 		}
 	}
 }
+
+func TestSegmentsIgnoreNesting(t *testing.T) {
+	a, b := Span(3, 9), Span(12, 20)
+	a.P5 = true
+	x := Complement(Join(a, b))
+	y := Join(Complement(b), Complement(a))
+	if !SameSegments(x.Segments(), y.Segments()) {
+		t.Errorf("segments differ: %+v vs %+v", x.Segments(), y.Segments())
+	}
+	if SameSegments(x.Segments(), Join(Complement(a), Complement(b)).Segments()) {
+		t.Errorf("operand order must matter")
+	}
+	if !SameSegments(StructureSegments(x.Structure()), x.Segments()) {
+		t.Errorf("structure segments differ from node segments")
+	}
+	z := Complement(Join(Single(1), Complement(Join(Single(1), a))))
+	w := Complement(Join(Single(1), Complement(a), Complement(Single(1))))
+	if !SameSegments(z.Segments(), w.Segments()) {
+		t.Errorf("distributed complement: %+v vs %+v", z.Segments(), w.Segments())
+	}
+}
